@@ -808,6 +808,10 @@ pub fn c12(tier: Tier, _seed: u64) -> Prop {
 }
 
 pub fn replay_elf(case: &Value) -> bool {
+    if case["real_binary"].as_bool().unwrap_or(false) {
+        println!("real-binary counterexamples are re-checked by ./check.sh C12 quick (they need the repository binary): {}", case);
+        return false;
+    }
     let spec = match Spec::from_json(&case["spec"]) {
         Some(s) => s,
         None => {
